@@ -15,6 +15,15 @@ PROP_FILE = "Properties/C14.v"
 def make_receiver(dev, infos, devs, seed):
     if dev in devs:
         return AS.recorded_receiver(devs[dev], infos)
+    if dev.startswith("mainonly"):
+        # a receiver with one zone only: the subunits initialised last are input sources, not zones
+        rng = random.Random(seed)
+        late = [x for x in infos if x[1] in ("TUN", "USB", "UAW", "SPOTIFY", "NETRADIO", "SERVER")]
+        keep = [x for x in infos if x[1] in ("SYS", "MAIN")] + rng.sample(late, rng.randrange(1, 4))
+        while True:
+            rx, present = AS.synthetic_receiver(rng, keep)
+            if "MAIN" in present and any(p not in ("SYS", "MAIN") for p in present):
+                return rx
     return AS.synthetic_receiver(random.Random(seed), infos)[0]
 
 
@@ -130,6 +139,7 @@ def run(chk: Check):
     infos, enums = class_info()
     devs = AS.recorded_devices()
     devices = [("RX-A810", 0)] + [(f"synthetic{k}", rng.randrange(1 << 30)) for k in range(1 if chk.tier == "quick" else 3)]
+    devices += [(f"mainonly{k}", 977 + k) for k in range(1 if chk.tier == "quick" else 3)]
     if chk.tier == "thorough":
         devices += [(n, 0) for n in sorted(devs) if n != "RX-A810"][:3]
     cases = []
